@@ -93,6 +93,37 @@ fn val<V: IntoVal<Env, Val>>(v: &V) -> [u64; VW] {
 }
 struct Raw([u64; VW]);
 
+/// feature `getmux` (off by default; same result): the words of the FIRST matching slot are selected inside the
+/// scan and the value is decoded ONCE after it, instead of one decode per slot. For harnesses whose slot keys are
+/// symbolic (every slot may match) this cuts the symbolic-execution cost of a read by the number of slots.
+#[cfg(feature = "getmux")]
+fn get<K: IntoVal<Env, Val>, V: TryFromVal<Env, Val>>(dur: u8, k: &K) -> Option<V> {
+    if V::__W > VW {
+        model::overflow()
+    }
+    let key = key(k);
+    let w = model::world();
+    let seq = w.seq;
+    let mut found = false;
+    let mut is_live = false;
+    let mut words = [0u64; VW];
+    let mut i = 0;
+    while i < model::NS {
+        let s = &w.slots[i];
+        if !found && s.claimed && s.dur == dur && keq(&s.key, &key) {
+            found = true;
+            is_live = s.present && (s.dur != 1 || s.live_until >= seq);
+            words = s.val;
+        }
+        i += 1;
+    }
+    if found && is_live {
+        Some(V::__take(&words[..V::__W]))
+    } else {
+        None
+    }
+}
+#[cfg(not(feature = "getmux"))]
 fn get<K: IntoVal<Env, Val>, V: TryFromVal<Env, Val>>(dur: u8, k: &K) -> Option<V> {
     if V::__W > VW {
         model::overflow()
